@@ -20,7 +20,7 @@ ExprForms == {"func", "setvar", "intvar", "const", "nil", "int-literal", "string
               "parenthesized-func", "parenthesized-new", "conversion", "func-literal", "method-value", "generic-func", "composite-literal",
               "struct-literal", "call-result", "set-call-result", "field-of-struct-value", "index-expr", "star-deref", "type-assertion",
               "new-named-other-pkg", "set-other-pkg", "aliased-set-var", "new-slice", "new-map", "new-chan", "new-func", "new-array", "unsafe-ptr"}
-FieldForms == {"literal", "const", "var", "concat", "raw-string", "spread", "star-mixed", "empty", "int-literal", "duplicate"}
+FieldForms == {"literal", "const", "var", "concat", "raw-string", "spread", "star-mixed", "empty", "int-literal", "duplicate", "repeat-beyond-field-count", "unknown", "unexported"}
 \* special whole-file shapes
 Specials == {"dot-import-bind", "dot-import-build", "alias-import", "multi-assign-set-var", "multi-name-set-var", "build-no-args",
              "build-twice", "build-not-first", "generic-injector", "set-var-no-value", "set-var-composite", "struct-no-fields",
